@@ -186,12 +186,14 @@ def plan(prop, tier):
               B("B", 3, units="sweep", configs=cfg_one_method, sample=1500 if q else None),
               B("V", 10, sim=100 if q else 2000, depth=10, units="sweep", configs=cfg_two_methods),
               # the same figures when the transactions come through a spreadsheet (numbers with many digits, crypto fees, exchange-supplied values)
-              B("V", 3, ods=True, configs=cfg_one_method, sample=500 if q else None), B("F", 3, ods=True, configs=cfg_one_method, sample=300 if q else None)]
+              B("V", 3, ods=True, configs=cfg_one_method, sample=500 if q else None), B("F", 3, ods=True, configs=cfg_one_method, sample=300 if q else None),
+              B("V", 3, runs=runs_windows, units="sweep", configs=cfg_one_method, sample=300 if q else 4000)]     # a date filter only selects fractions: those shown keep their figures
     elif prop == "C05":
         mc = [("Y", 3, "valid", "single")] if q else [("Y", 3, "valid", "all")]      # (depth 4 of this slice does not finish within the time limit)
         bs = [B("Y", 3 if q else 4, configs=cfg_countries, sample=400 if q else 6000), B("C", 3, configs=cfg_countries, sample=300 if q else 3000),
               # holding periods one second around 1, 365 and 366 days, three UTC offsets: every acquisition / disposal pair, and longer histories
               B("P", 2, configs=cfg_countries, sample=600 if q else None), B("P", 4, sim=150 if q else 3000, depth=4, configs=cfg_countries)]
+        bs.append(B("Y", 3, runs=runs_windows, configs=cfg_countries, sample=150 if q else 3000))      # ... and their term
         if not q:
             bs.append(B("P", 3, configs=cfg_countries, sample=20000))
     elif prop == "C06":
